@@ -232,6 +232,12 @@ pub const KINDS: &[(&str, Expect)] = &[
     ("flip.self", Expect::Reject),
     ("flip.not_reciprocated", Expect::Reject),
     ("flip.equals_next", Expect::Reject),
+    // a reference dropped on ONE side only: the partner still names this link
+    ("flip.dropped_one_side", Expect::Reject),
+    ("next.dropped_one_side", Expect::Reject),
+    ("prev.dropped_one_side", Expect::Reject),
+    ("next_alt.dropped_one_side", Expect::Reject),
+    ("prev_alt.dropped_one_side", Expect::Reject),
     ("next.not_reciprocated", Expect::Reject),
     ("prev.not_reciprocated", Expect::Reject),
     ("next_alt.without_primary", Expect::Reject),
@@ -293,6 +299,9 @@ pub const KINDS: &[(&str, Expect)] = &[
     ("ok.heading_wraps_through_two_pi", Expect::Accept),
     ("ok.no_headings", Expect::Accept),
     ("ok.osm_id", Expect::Accept),
+    ("ok.flip_pair_removed", Expect::Accept),
+    ("ok.next_and_alt_swapped", Expect::Accept),
+    ("ok.prev_and_alt_swapped", Expect::Accept),
     ("ok.zero_length_speed_restriction", Expect::Accept),
     ("ok.speed_param_added", Expect::Accept),
 ];
@@ -340,6 +349,59 @@ pub fn apply(kind: &str, k: usize, base: &[Link]) -> Option<Vec<Link>> {
                 return None;
             }
             v[k].idx_flip = base[k].idx_next;
+        }
+        "flip.dropped_one_side" => {
+            if base[k].idx_flip.idx() == 0 {
+                return None;
+            }
+            v[k].idx_flip = LinkIdx::new(0);
+        }
+        "next.dropped_one_side" => {
+            // no alternate (otherwise the 'alternate without primary' rule would fire instead)
+            if base[k].idx_next.idx() == 0 || base[k].idx_next_alt.idx() != 0 {
+                return None;
+            }
+            v[k].idx_next = LinkIdx::new(0);
+        }
+        "prev.dropped_one_side" => {
+            if base[k].idx_prev.idx() == 0 || base[k].idx_prev_alt.idx() != 0 {
+                return None;
+            }
+            v[k].idx_prev = LinkIdx::new(0);
+        }
+        "next_alt.dropped_one_side" => {
+            if base[k].idx_next_alt.idx() == 0 {
+                return None;
+            }
+            v[k].idx_next_alt = LinkIdx::new(0);
+        }
+        "prev_alt.dropped_one_side" => {
+            if base[k].idx_prev_alt.idx() == 0 {
+                return None;
+            }
+            v[k].idx_prev_alt = LinkIdx::new(0);
+        }
+        "ok.flip_pair_removed" => {
+            let f = base[k].idx_flip.idx();
+            if f == 0 || f >= n {
+                return None;
+            }
+            v[k].idx_flip = LinkIdx::new(0);
+            v[f].idx_flip = LinkIdx::new(0);
+        }
+        "ok.next_and_alt_swapped" => {
+            if base[k].idx_next_alt.idx() == 0 {
+                return None;
+            }
+            v[k].idx_next = base[k].idx_next_alt;
+            v[k].idx_next_alt = base[k].idx_next;
+        }
+        "ok.prev_and_alt_swapped" => {
+            if base[k].idx_prev_alt.idx() == 0 {
+                return None;
+            }
+            v[k].idx_prev = base[k].idx_prev_alt;
+            v[k].idx_prev_alt = base[k].idx_prev;
         }
         "next.not_reciprocated" => {
             // point at a link that does not point back
